@@ -286,6 +286,14 @@ theorem dedupPy_ne_nil {l : List Val} (h : l ≠ []) : dedupPy l ≠ [] := by
       intro hh; subst hh; simp [pyIn] at ha
     · simp [ha]
 
+theorem binActive_pair (a b : Val) (act : List Val) :
+    binActive [a, b] act =
+      (if pyIn b act = true then (some 1, (if pyIn a act = true then 1 else 0) + 1)
+       else if pyIn a act = true then (some 0, 1) else (none, 0)) := by
+  have hr2 : List.range 2 = [0, 1] := by decide
+  simp only [binActive, List.length_cons, List.length_nil, hr2, List.foldl_cons, List.foldl_nil]
+  by_cases ha : pyIn a act = true <;> by_cases hb : pyIn b act = true <;> simp [ha, hb]
+
 theorem mkBinary_ok {env : Env} {c : Consts} {choices : List Val} {active : Option (List Val)}
     {r : BinRange} (h : mkBinary env c choices active = .ok r) :
     choices.length = 2 ∧ r.choices = choices ∧
@@ -320,10 +328,15 @@ theorem mkBinary_ok {env : Env} {c : Consts} {choices : List Val} {active : Opti
             have hd : (dedupPy act).length ≠ 0 := by
               intro h0
               exact dedupPy_ne_nil (by intro hh; subst hh; simp at hne) (List.eq_nil_of_length_eq_zero h0)
-            have hr2 : List.range 2 = [0, 1] := by decide
-            simp only [binActive, List.length_cons, List.length_nil, hr2, List.foldl_cons, List.foldl_nil] at hnum ⊢
-            by_cases ha : pyIn a act = true <;> by_cases hb : pyIn b act = true <;>
-              simp_all
+            rw [binActive_pair] at hnum hri
+            by_cases ha : pyIn a act = true <;> by_cases hb : pyIn b act = true
+            · left; simp only [ha, hb, if_true] at hri ⊢; exact ⟨by simpa using hri, trivial, trivial⟩
+            · right; left; simp only [ha, hb, if_true, if_false] at hri ⊢
+              exact ⟨rfl, trivial⟩
+            · right; right; simp only [ha, hb, if_true, if_false] at hri ⊢
+              exact ⟨rfl, trivial⟩
+            · simp only [ha, hb, if_false] at hnum
+              exact absurd hnum.symm hd
           · cases h
         · cases h
   · cases h
